@@ -188,7 +188,7 @@ func (m *C04) After(w *world.World, a *world.Action) {
 			owner := m.esc[r]
 			m.R.Judge("nft-recv-unlock", len(u.escrow), classAttr(u.fromRep.Class))
 			if owner != u {
-				m.bad(w, "escrow-released-to-wrong-claimant", map[string]string{"sent_class": classAttr(u.fromRep.Class)},
+				m.bad(w, "escrow-released-to-wrong-claimant", map[string]string{"sent_class": classAttr(u.fromRep.Class), "origin_class": classAttr(u.origin.Class)},
 					fmt.Sprintf("packet %s carried NFT unit #%d (minted as %s, sent as %s) but released escrowed token %s which belongs to unit %v",
 						k, u.id, u.origin, u.fromRep, r, unitName(owner)))
 				return
@@ -217,7 +217,7 @@ func (m *C04) After(w *world.World, a *world.Action) {
 		c := ch[0]
 		r := nftRep{on, c.class, c.id}
 		if r != u.fromRep || c.after == "" || c.after == esc {
-			m.bad(w, "refund-of-wrong-token", map[string]string{"sent_class": classAttr(u.fromRep.Class)}, fmt.Sprintf("sent %s, refunded %+v", u.fromRep, c))
+			m.bad(w, "refund-of-wrong-token", map[string]string{"sent_class": classAttr(u.fromRep.Class), "origin_class": classAttr(u.origin.Class)}, fmt.Sprintf("sent %s, refunded %+v", u.fromRep, c))
 			return
 		}
 		if u.locked {
